@@ -2,6 +2,7 @@
 // Decision table written from the property: without force the documented error class is thrown (C: matching code);
 // with force a warning/problem is emitted and a result is produced; a result without error, problem or warning is finite.
 #include "gen.hpp"
+#include "MSSMNoFV/gm2_1loop_helpers.hpp"
 #include "gm2calc/gm2_1loop.hpp"
 #include "gm2calc/gm2_2loop.hpp"
 #include "gm2calc/gm2_uncertainty.hpp"
@@ -63,6 +64,61 @@ static void fill_c(CM* h, const gen::MssmPoint& p) {
    gm2calc_mssmnofv_set_MAh_pole(h, p.ma); gm2calc_mssmnofv_set_scale(h, p.Q);
    for (unsigned i = 0; i < 3; ++i) { gm2calc_mssmnofv_set_ml2(h, i, i, p.ml[i] * p.ml[i]); gm2calc_mssmnofv_set_me2(h, i, i, p.me[i] * p.me[i]); gm2calc_mssmnofv_set_mq2(h, i, i, p.mq[i] * p.mq[i]);
       gm2calc_mssmnofv_set_mu2(h, i, i, p.mU[i] * p.mU[i]); gm2calc_mssmnofv_set_md2(h, i, i, p.mD[i] * p.mD[i]); gm2calc_mssmnofv_set_Ae(h, i, i, p.Ae[i]); gm2calc_mssmnofv_set_Au(h, i, i, p.Au[i]); gm2calc_mssmnofv_set_Ad(h, i, i, p.Ad[i]); }
+}
+
+// A point that is fine with tan(beta) resummation but has a smuon tachyon with the tree-level muon Yukawa coupling (larger by 1 + Delta_mu, and the
+// left-right mixing scales with it): the non-resummed results recompute the spectrum and must refuse it.  Classified with an independent estimate of
+// the smuon mass matrix for both Yukawa couplings, with margins.
+static void mssm_nonresummed_tachyon_case(vh::Rng& r, gen::CerrCapture& cap) {
+   gen::MssmPoint p = gen::rand_mssm(r, 500, 3000, 30, 60);
+   for (int g = 0; g < 3; ++g) { p.mq[g] = r.LU(1500, 4000); p.mU[g] = r.LU(1500, 4000); p.mD[g] = r.LU(1500, 4000); p.ml[g] = r.LU(800, 3000); p.me[g] = r.LU(800, 3000); p.Ae[g] = 0; p.Au[g] = 0; p.Ad[g] = 0; }
+   p.mu = r.LU(2000, 4000); p.m1 = r.LU(300, 1000); p.m2 = r.LU(300, 1000);   // mu M_i > 0: Delta_mu > 0
+   const double mm = 0.1056583715;
+   double dmu = 0;
+   const double fwin = r.U(0.35, 0.65);
+   for (int it = 0; it < 4; ++it) {   // the smuon masses enter Delta_mu weakly: iterate the choice of the soft masses
+      // (mL2 + a)(mR2 + b) = T^2 with T = mm mu tb / (1 + f Delta_mu): between the tree-level and the resummed mixing; a, b: D-terms
+      const double MZ0 = 91.1876, MW0 = 80.385, s2 = 1 - MW0 * MW0 / (MZ0 * MZ0), c2 = (1 - p.tb * p.tb) / (1 + p.tb * p.tb);
+      const double a_ = mm * mm + (s2 - 0.5) * MZ0 * MZ0 * c2, b_ = mm * mm - s2 * MZ0 * MZ0 * c2, T = mm * p.mu * p.tb / (1 + (it == 0 ? 0.1 : dmu) * fwin);
+      const double x = -0.5 * (a_ + b_) + std::sqrt(0.25 * (a_ - b_) * (a_ - b_) + T * T);
+      if (!(x > 0)) { ++out->inconclusive; out->count("non-resummed tachyon: no window point found"); return; }
+      p.ml[1] = p.me[1] = std::sqrt(x);
+      try { CppM m = gen::make_mssm(p); if (m.get_problems().have_problem()) { ++out->inconclusive; out->count("non-resummed tachyon: no window point found"); return; } dmu = delta_mu_correction(m); }
+      catch (const Error&) { ++out->inconclusive; out->count("non-resummed tachyon: no window point found"); return; }
+   }
+   CppM m0;
+   try { m0 = gen::make_mssm(p); } catch (const Error&) { ++out->inconclusive; return; }
+   if (m0.get_problems().have_problem() || !(dmu > 0.02)) { ++out->inconclusive; out->count("non-resummed tachyon: no window point found"); return; }
+   // independent estimate: M^2 = [[mL2 + mm^2 + (sw2 - 1/2) MZ^2 c2b, -mm mu tb k], [., mR2 + mm^2 - sw2 MZ^2 c2b]], k = 1 (tree) or 1/(1 + Delta_mu) (resummed)
+   const double MZ = m0.get_MZ(), MW = m0.get_MW(), sw2 = 1 - MW * MW / (MZ * MZ), c2b = (1 - p.tb * p.tb) / (1 + p.tb * p.tb), mL2 = p.ml[1] * p.ml[1], mR2 = p.me[1] * p.me[1];
+   const double LL = mL2 + mm * mm + (sw2 - 0.5) * MZ * MZ * c2b, RR = mR2 + mm * mm - sw2 * MZ * MZ * c2b, off = mm * p.mu * p.tb;
+   const double det_tree = LL * RR - off * off, det_res = LL * RR - off * off / ((1 + dmu) * (1 + dmu));
+   J c = p.json(); c.str("defect", "smuon tachyon with the tree-level Yukawa coupling only").d("Delta_mu", dmu).d("det_tree_estimate", det_tree).d("det_resummed_estimate", det_res).str("model", "MSSM");
+   if (!(det_tree < -0.02 * LL * RR && det_res > 0.02 * LL * RR)) { ++out->inconclusive; out->count("non-resummed tachyon: estimate not clear of the window edges"); return; }
+   ++out->conclusive;
+   struct F { const char* n; double (*f)(const CppM&); double (*c)(const CM*); };
+   static const F fs[] = {{"calculate_amu_1loop_non_tan_beta_resummed", [](const CppM& m) { return calculate_amu_1loop_non_tan_beta_resummed(m); }, [](const CM* h) { return gm2calc_mssmnofv_calculate_amu_1loop_non_tan_beta_resummed(h); }},
+                          {"calculate_amu_2loop_non_tan_beta_resummed", [](const CppM& m) { return calculate_amu_2loop_non_tan_beta_resummed(m); }, [](const CM* h) { return gm2calc_mssmnofv_calculate_amu_2loop_non_tan_beta_resummed(h); }}};
+   for (const F& f : fs) {
+      // without force-output: refused
+      { Outcome o; cap.take(); try { o.amu = f.f(m0); o.computed = true; } catch (const std::exception& e) { o.cls = cls_of(e); o.msg = e.what(); }
+        o.cerr_text = cap.take(); J w = c; w.str("function", f.n).str("exception", o.cls).d("value", o.amu);
+        const bool ok = !o.computed && o.cls == "EPhysicalProblem";
+        out->cell(std::string("MSSM|C++|tachyon-without-resummation-only|") + f.n + "|force0", ok ? 0 : 1, &w);
+        if (!ok) out->fail(std::string("C16:MSSM:C++:noforce:tachyon-without-resummation-only:") + f.n, std::string(f.n) + (o.computed ? " computed a tachyonic spectrum silently" : " wrong error class " + o.cls), w); }
+      // resummed results of the same model stay available
+      { bool fine = true; try { const double a = calculate_amu_1loop(m0) + calculate_amu_2loop(m0); fine = std::isfinite(a); } catch (const std::exception&) { fine = false; }
+        out->cell("MSSM|C++|tachyon-without-resummation-only|resummed-results-unaffected", fine ? 0 : 1, &c); if (!fine) out->fail("C16:MSSM:C++:resummed-result-refused-for-a-valid-point", "the resummed results of a valid point are refused", c); }
+      // C entry point: NaN (no error channel on these functions)
+      { CM* h = gm2calc_mssmnofv_new(); fill_c(h, p); const gm2calc_error e = gm2calc_mssmnofv_calculate_masses(h); const double v = f.c(h); cap.take();
+        J w = c; w.str("function", f.n).i("calculate_masses_error", static_cast<int>(e)).d("value", v);
+        const bool ok = e == gm2calc_NoError && std::isnan(v);
+        out->cell(std::string("MSSM|C|tachyon-without-resummation-only|") + f.n, ok ? 0 : 1, &w);
+        if (!ok) out->fail(std::string("C16:MSSM:C:tachyon-without-resummation-only:") + f.n, std::string("gm2calc_mssmnofv_") + f.n + " returns " + vh::num(v) + " for a spectrum that is tachyonic without resummation (NaN expected)", w);
+        gm2calc_mssmnofv_free(h); }
+      // with force-output the library neither warns nor flags (the problem stays on an internal copy): reported only
+      { CppM mf(m0); mf.do_force_output(true); cap.take(); try { const double a = f.f(mf); const std::string e = cap.take(); out->count(std::string("force-output, tachyon without resummation only: computed ") + (e.empty() ? "without any message" : "with a message") + (std::isfinite(a) ? "" : " (non-finite)")); } catch (const std::exception&) { out->count("force-output, tachyon without resummation only: refused"); cap.take(); } }
+   }
 }
 
 static void mssm_case(vh::Rng& r, gen::CerrCapture& cap) {
@@ -302,7 +358,7 @@ int main(int argc, char** argv) {
       o.cur = i;
       vh::Rng r(a.seed, a.worker, i);
       ++o.evaluations;
-      if (i % 2 == 0) mssm_case(r, cap); else if (i % 4 == 1) thdm_case(r, cap); else thdm_tachyon_case(r, cap);
+      if (i % 8 == 6) mssm_nonresummed_tachyon_case(r, cap); else if (i % 2 == 0) mssm_case(r, cap); else if (i % 4 == 1) thdm_case(r, cap); else thdm_tachyon_case(r, cap);
    }
    o.finish();
    return 0;
